@@ -54,7 +54,7 @@ PROPS = {
     'C09': dict(jobs=[('sim', 'batch', .7), ('cluster_ops', '-', .3)], quick_n=4000,
                 rule='batch run with >=2 reservations, or op sequence with a foreign/own-reservation allocation',
                 nontrivial=lambda o: o['probes'].get('reservation', 0) >= 2 or o['probes'].get('alloc_own') or o['faults'].get('F8:refused_foreign')),
-    'C10': dict(jobs=[('repro', 'repro', 1.0)], quick_n=320, workers=8,
+    'C10': dict(jobs=[('repro', 'repro', 1.0)], quick_n=130, workers=10,
                 rule='completed scenario with a >=3-node workflow on a heterogeneous cluster, run 2x in-process and in 3 fresh interpreters with other PYTHONHASHSEED',
                 nontrivial=lambda o: o['probes'].get('hetero_wide_completed')),
     'C11': dict(jobs=[('pause', 'real', 1.0)], quick_n=160,
